@@ -237,6 +237,21 @@ def main(argv=None):
         (run.functions['proved'] if all_proved else run.functions['unverified']).append(fid)
         for ref in res['refuted']:
             handle_refuted(run, spec, fid, ref, baseline)
+    if hasattr(spec, 'extra_obligations'):
+        from pyvc.extract import Program
+        for ob in spec.extra_obligations(Program()):
+            run.obligations.append(ob)
+            if ob['verdict'] == 'proved':
+                proved_names.append(ob['name'])
+            elif ob['verdict'] == 'refuted' and ob['name'] in baseline:
+                run.add_violation(report.Violation(
+                    args.prop, ob['name'], {'obligation': ob['name']}, None,
+                    'frame obligation %s (%s) was discharged on the reference tree and is now refuted: %s'
+                    % (ob['name'], ob['clause'], ob['detail']), False, ob['detail']))
+            elif ob['name'] in baseline:
+                lost.append(ob)
+            if args.verbose or ob['verdict'] != 'proved':
+                print('  [%s] %-70s %s %s' % (ob['verdict'], ob['name'], ob['backend'], ob['detail'][:200]))
     # baseline obligations that disappeared entirely (function no longer produces them)
     seen = {ob['name'] for ob in run.obligations}
     for name in baseline:
